@@ -23,6 +23,19 @@ EXTENDS Integers, Sequences, FiniteSets
 
 CONSTANT Dev_IdentityIgnoresCap
 
+(* Entry points.  The codec is reached through more than compress()/decompress():
+     "codec"       vgi_rpc._codec.compress / decompress                                   (all rows of the table)
+     "legacy"      http._common._compress_body / _decompress_body (zstd aliases older call sites import)
+     "header"      http._common.decode_content_encoding(body, "<Content-Encoding value>", max_output_size=cap):
+                   the coding is named by a header string (case / blanks vary), including "identity"
+     "chain"       decode_content_encoding with TWO codings applied in order ("gzip, zstd"): decoded in reverse, the
+                   cap applies to every stage, so the length that counts is the larger of the two stage outputs
+     "middleware"  the frame is produced by the server's response-compression middleware (streaming zstd writer that
+                   declares the size / chunked gzip) at the configured level, and decoded with decompress()
+     "token"       http.server._state_token._pack_plaintext / _unpack_plaintext (zstd with a fixed 64 MiB cap, raw
+                   fallback when compression does not pay)                                                       *)
+Entries == {"codec", "legacy", "header", "chain", "middleware", "token"}
+
 Codecs == {"zstd", "gzip", "identity"}
 FramesOf(codec) == IF codec = "identity" THEN {"raw"} ELSE {"oneshot", "stream"}
 Levels == {"default", "min", "mid", "max"}
@@ -30,9 +43,17 @@ LevelsOf(codec) == IF codec = "identity" THEN {"default"} ELSE Levels
 Lens == {"zero", "one", "small", "chunk_minus", "chunk", "chunk_plus", "large"}
 Caps == {"none", "zero", "len_minus_1", "len", "len_plus_1", "large"}
 
-Cases == {x \in [codec : Codecs, frame : {"raw", "oneshot", "stream"}, level : Levels, len : Lens, cap : Caps] :
+EntryOK(x) ==
+  CASE x.entry = "codec"      -> TRUE
+    [] x.entry = "legacy"     -> x.codec = "zstd" /\ x.frame = "oneshot" /\ x.level = "default"
+    [] x.entry = "header"     -> x.level = "default"
+    [] x.entry = "chain"      -> x.codec # "identity" /\ x.frame = "oneshot" /\ x.level = "default" /\ x.len # "zero"   \* codec = the outer coding
+    [] x.entry = "middleware" -> x.codec # "identity" /\ x.frame = "stream" /\ x.len # "zero"       \* empty bodies are not compressed
+    [] x.entry = "token"      -> x.codec = "zstd" /\ x.frame = "oneshot" /\ x.level = "default" /\ x.cap = "none"
+Cases == {x \in [entry : Entries, codec : Codecs, frame : {"raw", "oneshot", "stream"}, level : Levels, len : Lens, cap : Caps] :
               /\ x.frame \in FramesOf(x.codec)
               /\ x.level \in LevelsOf(x.codec)
+              /\ EntryOK(x)
               /\ ~(x.len = "zero" /\ x.cap = "len_minus_1")}          \* there is no cap -1
 
 \* ---------------------------------------------------------------- oracle on classes
@@ -55,12 +76,12 @@ CapMonotone(c) == \A k \in Caps : LET c2 == [c EXCEPT !.cap = k] IN
     (/\ c2 \in Cases /\ c.cap # "none" /\ k # "none"
      /\ CapVal(k, RepLen(c.len)) >= CapVal(c.cap, RepLen(c.len))
      /\ Expected(c) = "original") => Expected(c2) = "original"
-FrameBlind(c) == \A f \in FramesOf(c.codec), lv \in LevelsOf(c.codec) :      \* the verdict never depends on frame kind or level
-    Expected([c EXCEPT !.frame = f, !.level = lv]) = Expected(c)
+FrameBlind(c) == \A f \in FramesOf(c.codec), lv \in LevelsOf(c.codec), e \in Entries :   \* the verdict never depends on frame kind,
+    Expected([c EXCEPT !.frame = f, !.level = lv, !.entry = e]) = Expected(c)                  \* level or entry point
 
 \* ---------------------------------------------------------------- judging what the real code did
 (* observation o = [n, cap, outcome]
-     n        length of the original byte string
+     n        length of the original byte string (entry "chain": the larger of the two stage outputs)
      cap      max_output_size passed (-1 = None)
      outcome  "original" | "limit" (DecompressionLimitExceeded) | "changed" (other bytes came back)
               | "error" (any other exception)                                                              *)
